@@ -304,8 +304,9 @@ def passes_through(pattern: str) -> bool:
         return False
     m = re.match(r"^\[([^\]]+)\]([+*?]?)$", p)
     if m:
-        # a single class is copied too (body verbatim); only bodies of plain characters are certain to be valid GBNF
-        return not re.fullmatch(r"\^?[A-Za-z0-9_ \-]+", m.group(1))
+        # a single class is copied too (body verbatim): the known finding applies only when that copy is not valid GBNF
+        _, probs = gbnf.check('root ::= "K" ' + p + "\n")
+        return bool(probs)
     return bool(p) and p not in ["+", "*", "?"]
 
 
